@@ -141,6 +141,12 @@ func c04Resume(maxURLs int) {
 		verifrt.Cover("stopped-gracefully")
 		verifrt.Tag("[graceful stop]")
 		reactor.Freeze()
+		if verifrt.Choice("stages-take-time-to-stop", 2) == 1 {
+			// controler.stopPipeline stops the four stages between the freeze and the queue's Stop: the queue's
+			// goroutines go on running meanwhile
+			verifrt.Quiesce()
+			verifrt.Cover("time-between-freeze-and-stop")
+		}
 		Stop()
 		reactor.Stop()
 	}
